@@ -981,3 +981,107 @@ Qed.
 Lemma follows_spec : forall fl h n s crd,
   follows_specb n s (state_of (step fl (run fl init h) (Reconcile n (LFound s crd)))) = true.
 Proof. intros fl h n s crd. apply follows_spec_any_state, never_panics. Qed.
+
+(* ================================================================== *)
+(* hook client metrics: registration never fails, collectors are reused *)
+
+Lemma mfind_app_some : forall k m m' id, mfind k m = Some id -> mfind k (m ++ m')%list = Some id.
+Proof.
+  induction m as [|[k' v] m IH]; simpl; intros m' id H; [discriminate|].
+  destruct (String.eqb k k'); [exact H|apply IH; exact H].
+Qed.
+
+Lemma mfind_app_none : forall k m m', mfind k m = None -> mfind k (m ++ m')%list = mfind k m'.
+Proof.
+  induction m as [|[k' v] m IH]; simpl; intros m' H; [reflexivity|].
+  destruct (String.eqb k k'); [discriminate|apply IH; exact H].
+Qed.
+
+Lemma memb_true_iff : forall k l, memb k l = true <-> In k l.
+Proof.
+  intros k l. unfold memb. rewrite existsb_exists. split.
+  - intros [x [Hin Heq]]. apply String.eqb_eq in Heq. subst. exact Hin.
+  - intro Hin. exists k. split; [exact Hin|apply String.eqb_refl].
+Qed.
+
+(* the cache knows exactly the keys the registry holds *)
+Definition MInv (st : mstate) : Prop :=
+  forall k, In k (m_registry st) <-> mfind k (m_cache st) <> None.
+
+Lemma MInv_init : MInv minit.
+Proof. intro k. simpl. split; [intros []|intro H; apply H; reflexivity]. Qed.
+
+Lemma mstep_ok : forall st e, MInv st -> moutcome_of (mstep st e) = ROk /\ MInv (fst (fst (mstep st e))).
+Proof.
+  intros st [k|] HI; simpl; [|split; [reflexivity|exact HI]].
+  destruct (mfind k (m_cache st)) as [id|] eqn:Hf; simpl; [split; [reflexivity|exact HI]|].
+  destruct (memb k (m_registry st)) eqn:Hm.
+  - apply memb_true_iff in Hm. apply HI in Hm. congruence.
+  - simpl. split; [reflexivity|]. intro k0. simpl. split.
+    + intros [Hk|Hin].
+      * subst k0. rewrite (mfind_app_none _ _ _ Hf). simpl. rewrite String.eqb_refl. discriminate.
+      * apply HI in Hin. destruct (mfind k0 (m_cache st)) as [v|] eqn:H0; [|congruence].
+        rewrite (mfind_app_some _ _ _ _ H0). discriminate.
+    + intro Hne. destruct (mfind k0 (m_cache st)) as [v|] eqn:H0.
+      * right. apply HI. congruence.
+      * rewrite (mfind_app_none _ _ _ H0) in Hne. simpl in Hne.
+        destruct (String.eqb k0 k) eqn:He; [|congruence].
+        apply String.eqb_eq in He. left. symmetry. exact He.
+Qed.
+
+Lemma MInv_run : forall h st, MInv st -> MInv (mrun st h).
+Proof.
+  induction h as [|e h IH]; intros st HI; [exact HI|].
+  simpl. apply IH. apply mstep_ok. exact HI.
+Qed.
+
+Lemma metrics_never_fails : forall h e, moutcome_of (mstep (mrun minit h) e) = ROk.
+Proof. intros h e. apply mstep_ok. apply MInv_run. exact MInv_init. Qed.
+
+Lemma mstep_keeps : forall st e k id,
+  mfind k (m_cache st) = Some id -> mfind k (m_cache (fst (fst (mstep st e)))) = Some id.
+Proof.
+  intros st [k'|] k id H; simpl; [|exact H].
+  destruct (mfind k' (m_cache st)) as [id'|] eqn:Hf; simpl; [exact H|].
+  destruct (memb k' (m_registry st)); simpl; apply mfind_app_some; exact H.
+Qed.
+
+Lemma mrun_keeps : forall h st k id,
+  mfind k (m_cache st) = Some id -> mfind k (m_cache (mrun st h)) = Some id.
+Proof.
+  induction h as [|e h IH]; intros st k id H; [exact H|].
+  simpl. apply IH. apply mstep_keeps. exact H.
+Qed.
+
+Lemma mreg_cached : forall st k id,
+  mcollector_of (mstep st (MReg k)) = Some id ->
+  mfind k (m_cache (fst (fst (mstep st (MReg k))))) = Some id.
+Proof.
+  intros st k id. unfold mcollector_of. simpl.
+  destruct (mfind k (m_cache st)) as [id'|] eqn:Hf; simpl.
+  - intro H. inversion H. subst. exact Hf.
+  - destruct (memb k (m_registry st)); simpl; intro H; [discriminate|].
+    inversion H. subst. rewrite (mfind_app_none _ _ _ Hf). simpl. rewrite String.eqb_refl. reflexivity.
+Qed.
+
+Lemma mrun_app : forall h1 h2 st, mrun st (h1 ++ h2)%list = mrun (mrun st h1) h2.
+Proof. intros. unfold mrun. apply fold_left_app. Qed.
+
+Lemma metrics_same_collector : forall h1 h2 k id,
+  mcollector_of (mstep (mrun minit h1) (MReg k)) = Some id ->
+  mcollector_of (mstep (mrun minit (h1 ++ MReg k :: h2)%list) (MReg k)) = Some id.
+Proof.
+  intros h1 h2 k id H. rewrite mrun_app. simpl.
+  apply mreg_cached in H.
+  pose proof (mrun_keeps h2 _ _ _ H) as Hk.
+  unfold mcollector_of. simpl. unfold mrun in Hk. simpl in Hk. unfold mrun. rewrite Hk. reflexivity.
+Qed.
+
+Lemma metrics_always_a_collector : forall h k,
+  exists id, mcollector_of (mstep (mrun minit h) (MReg k)) = Some id.
+Proof.
+  intros h k. pose proof (metrics_never_fails h (MReg k)) as Hok.
+  unfold moutcome_of, mcollector_of in *. simpl in *.
+  destruct (mfind k (m_cache (mrun minit h))) as [id|]; simpl in *; [exists id; reflexivity|].
+  destruct (memb k (m_registry (mrun minit h))); simpl in *; [discriminate|eexists; reflexivity].
+Qed.
